@@ -530,10 +530,16 @@ func ruleDedupeKeying(c *Ctx, dv *dev, paths []*Path) {
 // ruleRestValueConstant: R6.2 inside the deadzone the shaped value is the literal 0.
 func ruleRestValueConstant(c *Ctx, dv *dev) {
 	fn := dv.fn["handleABSEvent"]
-	vw := NewFnView(c.P, fn)
 	// find the comparisons of the value with (±) the deadzone and the phi that merges their arms
 	n := 0
-	for _, b := range fn.Blocks {
+	var hostBlocks []*ssa.BasicBlock
+	views := map[*ssa.Function]*FnView{}
+	for _, h := range dv.hostsOf(fn) {
+		hostBlocks = append(hostBlocks, h.Blocks...)
+		views[h] = NewFnView(c.P, h)
+	}
+	for _, b := range hostBlocks {
+		vw := views[b.Parent()]
 		for _, in := range b.Instrs {
 			phi, ok := in.(*ssa.Phi)
 			if !ok {
@@ -579,11 +585,17 @@ func ruleRestValueConstant(c *Ctx, dv *dev) {
 // in particular for the Control Change value byte staying within 0..127).
 func ruleNormalisation(c *Ctx, dv *dev, rule string) {
 	fn := dv.fn["handleABSEvent"]
-	vw := NewFnView(c.P, fn)
 	okNeg, okPos := false, false
 	bad := ""
 	var pos token.Pos
-	for _, b := range fn.Blocks {
+	var hostBlocks []*ssa.BasicBlock
+	hviews := map[*ssa.Function]*FnView{}
+	for _, h := range dv.hostsOf(fn) {
+		hostBlocks = append(hostBlocks, h.Blocks...)
+		hviews[h] = NewFnView(c.P, h)
+	}
+	for _, b := range hostBlocks {
+		vw := hviews[b.Parent()]
 		for _, in := range b.Instrs {
 			bo, ok := in.(*ssa.BinOp)
 			if !ok || bo.Op != token.QUO {
@@ -623,6 +635,44 @@ func ruleNormalisation(c *Ctx, dv *dev, rule string) {
 				bad = "the raw position is divided by " + den + " without distinguishing negative from non-negative positions: on two's-complement axes (min = -128, max = 127) the minimum end stop normalises below -1.0 and the Control Change value byte leaves 0..127"
 			default:
 				bad = fmt.Sprintf("%s positions are divided by %s", sign, den)
+			}
+		}
+	}
+	// the range is the one the kernel reported for THIS handler and THIS axis code: a device is a group of handlers that may
+	// report the same code with different ranges (the sticks and the touchpad of one gamepad both have ABS_X)
+	if bad == "" {
+		for _, b := range hostBlocks {
+			vw := hviews[b.Parent()]
+			for _, in := range b.Instrs {
+				bo, ok := in.(*ssa.BinOp)
+				if !ok || bo.Op != token.QUO {
+					continue
+				}
+				numT := vw.Term(bo.X)
+				if numT.Op != "convert" || !strings.HasSuffix(numT.Args[0].String(), "Event.Value") {
+					continue
+				}
+				for _, leaf := range rangeLeaves(bo.Y) {
+					lt := vw.Term(leaf)
+					var keys []string
+					for t := lt; t != nil && (t.Op == "lookup" || t.Op == "lookupok" || t.Op == "lookup2") && len(t.Args) == 2; t = t.Args[0] {
+						keys = append(keys, t.Args[1].String())
+					}
+					hasHandler, hasCode := false, false
+					for _, k := range keys {
+						if strings.Contains(k, "ie.Source") {
+							hasHandler = true
+						}
+						if strings.HasSuffix(k, "ie.Event.Code") || strings.Contains(k, "ie.Event.Code)") {
+							hasCode = true
+						}
+					}
+					if len(keys) == 0 {
+						bad = "the axis range used for the normalisation is not looked up for the reporting handler and axis code: " + lt.String()
+					} else if !hasHandler || !hasCode {
+						bad = fmt.Sprintf("the axis range used for the normalisation is looked up as %s, i.e. not by both the reporting handler and the axis code: two handlers of one device that report the same code with different ranges (stick ABS_X 0..255, touchpad ABS_X 0..1919) are normalised with one range, positions leave [-1,1] and the data byte leaves 0..127", lt)
+					}
+				}
 			}
 		}
 	}
@@ -945,6 +995,18 @@ func ruleShiftOnlyUnsigned(c *Ctx, dv *dev, rule string) {
 				}
 			}
 			return true
+		case *ssa.Extract, *ssa.Call:
+			// the flag computed by a stage function (value, canBeNegative := d.analogPosition(...)): every return of it
+			rets, ok := helperReturns(c.P, x)
+			if !ok {
+				return false
+			}
+			for _, r := range rets {
+				if !implies(r, want, depth+1) {
+					return false
+				}
+			}
+			return true
 		case *ssa.Phi:
 			// every edge that can deliver the wanted value must imply it: by the value it delivers, by the branch the
 			// edge leaves, or by the conditions under which its source block runs at all (a && b built as a value)
@@ -1033,8 +1095,11 @@ func ruleShiftOnlyUnsigned(c *Ctx, dv *dev, rule string) {
 	// (canBeNegative): a test of the sign of the range alone does not say it.
 	shiftBlocks := map[*ssa.BasicBlock]bool{}
 	var flips []*ssa.BinOp
-	vwFn := NewFnView(c.P, fn)
-	for _, b := range fn.Blocks {
+	var hostBlocks []*ssa.BasicBlock
+	for _, h := range hosts {
+		hostBlocks = append(hostBlocks, h.Blocks...)
+	}
+	for _, b := range hostBlocks {
 		for _, in := range b.Instrs {
 			bo, ok := in.(*ssa.BinOp)
 			if !ok || bo.Op != token.SUB {
@@ -1083,6 +1148,29 @@ func ruleShiftOnlyUnsigned(c *Ctx, dv *dev, rule string) {
 			if x.Op == token.NOT {
 				return noShift(x.X, !want, depth+1)
 			}
+		case *ssa.Parameter:
+			sites, all := staticCallSites(c.P, x.Parent())
+			idx := paramIndex(x)
+			if !all || len(sites) == 0 || idx < 0 {
+				return false
+			}
+			for _, cs := range sites {
+				if idx >= len(cs.Common().Args) || !noShift(cs.Common().Args[idx], want, depth+1) {
+					return false
+				}
+			}
+			return true
+		case *ssa.Extract, *ssa.Call:
+			rets, ok := helperReturns(c.P, x)
+			if !ok {
+				return false
+			}
+			for _, r := range rets {
+				if !noShift(r, want, depth+1) {
+					return false
+				}
+			}
+			return true
 		case *ssa.Phi:
 			for i, e := range x.Edges {
 				if k, ok := e.(*ssa.Const); ok && k.Value != nil && k.Value.Kind() == constant.Bool && constant.BoolVal(k.Value) != want {
@@ -1101,15 +1189,15 @@ func ruleShiftOnlyUnsigned(c *Ctx, dv *dev, rule string) {
 		// only flips that the shift can precede
 		relevant := false
 		for s := range shiftBlocks {
-			if reaches(s, fl.Block(), nil) {
-				relevant = true
+			if s.Parent() != fl.Parent() || reaches(s, fl.Block(), nil) {
+				relevant = true // (a shift in an earlier stage function precedes the flip of a later one)
 			}
 		}
 		if !relevant {
 			continue
 		}
 		unsignedOK, noShiftOK := false, false
-		for _, a := range vwFn.GuardsAt(fl.Block()) {
+		for _, a := range NewFnView(c.P, fl.Parent()).GuardsAt(fl.Block()) {
 			if a.Instr == nil {
 				continue
 			}
@@ -1127,4 +1215,55 @@ func ruleShiftOnlyUnsigned(c *Ctx, dv *dev, rule string) {
 	if len(flips) > 0 {
 		c.Check(flipBad == "", "R6.13", "device.handleABSEvent/unsigned-flip-only-on-an-unshifted-unsigned-position", pos, fmt.Sprintf("%d flip site(s) of the form 1 - v checked", len(flips)), flipBad)
 	}
+}
+
+// rangeLeaves: the map lookups that can supply the struct whose field the divisor v reads (through math.Abs, conversions,
+// a spilled local assigned on several paths, phis and comma-ok extracts).
+func rangeLeaves(v ssa.Value) []ssa.Value {
+	var out []ssa.Value
+	seen := map[ssa.Value]bool{}
+	var rec func(v ssa.Value, depth int)
+	rec = func(v ssa.Value, depth int) {
+		if v == nil || seen[v] || depth > 12 {
+			return
+		}
+		seen[v] = true
+		switch x := v.(type) {
+		case *ssa.Call:
+			for _, a := range x.Call.Args {
+				rec(a, depth+1)
+			}
+		case *ssa.Convert:
+			rec(x.X, depth+1)
+		case *ssa.ChangeType:
+			rec(x.X, depth+1)
+		case *ssa.BinOp:
+			rec(x.X, depth+1)
+			rec(x.Y, depth+1)
+		case *ssa.Field:
+			rec(x.X, depth+1)
+		case *ssa.FieldAddr:
+			rec(x.X, depth+1)
+		case *ssa.UnOp:
+			rec(x.X, depth+1)
+		case *ssa.Phi:
+			for _, e := range x.Edges {
+				rec(e, depth+1)
+			}
+		case *ssa.Extract:
+			rec(x.Tuple, depth+1)
+		case *ssa.Lookup:
+			out = append(out, x)
+		case *ssa.Alloc:
+			if refs := x.Referrers(); refs != nil {
+				for _, r := range *refs {
+					if st, ok := r.(*ssa.Store); ok && st.Addr == ssa.Value(x) {
+						rec(st.Val, depth+1)
+					}
+				}
+			}
+		}
+	}
+	rec(v, 0)
+	return out
 }
